@@ -651,7 +651,9 @@ impl<M: Math, T: Transformation<M>> Hamiltonian<M> for TransformedHamiltonian<M,
             crate::verif::emit("leap", || {
                 crate::verif::json!({"ev": "leap", "start": start.index_in_trajectory(),
                     "sign": sign, "res": "div", "why": "energy", "factor": step_size_factor,
-                    "eerr": crate::verif::bits(energy_error)})
+                    "eerr": crate::verif::bits(energy_error),
+                    "energy": crate::verif::bits(out.point().energy()),
+                    "e0": crate::verif::bits(out.point().initial_energy())})
             });
             return LeapfrogResult::Divergence(divergence_info);
         }
@@ -669,6 +671,7 @@ impl<M: Math, T: Transformation<M>> Hamiltonian<M> for TransformedHamiltonian<M,
                 "logp": crate::verif::bits(out.point().logp()),
                 "energy": crate::verif::bits(out.point().energy()),
                 "eerr": crate::verif::bits(energy_error),
+                "e0": crate::verif::bits(out.point().initial_energy()),
                 "tid": out.point().transform_id})
         });
 
